@@ -65,6 +65,22 @@ for m in sorted(glob.glob(f"{R}/seeded/*/meta.json")):
     out.append(f"| {d['name']}{'' if ok else ' (NOT a valid change)'} | {files}: {first} | {', '.join(d.get('caught_by', [])) or 'MISSED'} | {'; '.join(how)} |")
 out.append("")
 
+# ---- 9.9 per-property verification level as built (from props.json)
+def para(t): return re.sub(r"\s+", " ", t or "").strip()
+sec99 = ["### 9.9 Per-property level as built\n",
+         "What each check decides and how, as recorded in `props.json` (the same text feeds MANIFEST.json). §4 above is the plan written before the build; where the two differ, this section is what exists.\n"]
+for pid in ids:
+    c = props.get(pid, {})
+    sec99.append(f"#### {pid} — {titles[pid]}\n")
+    sec99.append(f"*Level.* {para(c.get('level_text'))}\n")
+    if c.get('level_note'): sec99.append(f"*Note.* {para(c.get('level_note'))}\n")
+    if c.get('rule'): sec99.append(f"*Correspondence rule (generator and judging).* {para(c.get('rule'))}\n")
+    if c.get('assumptions'): sec99.append("*Assumptions.* " + "; ".join(para(a) for a in c['assumptions']) + "\n")
+    if c.get('trusted'): sec99.append("*Trusted beyond the common base.* " + "; ".join(para(a) for a in c['trusted']) + "\n")
+    if c.get('partial'):
+        sec99.append("*Partial / not decided:*\n")
+        for a in c['partial']: sec99.append(f"* {para(a)}")
+        sec99.append("")
 # ---- 9.8 theorem index (from the Lean sources: name + first sentence of its doc comment)
 def theorem_index(path):
     if not os.path.exists(path): return []
@@ -92,6 +108,7 @@ for pid in ids:
     if c.get("functions_tied"):
         out.append(f"* translation-tied functions: {', '.join(c['functions_tied'])}")
     out.append("")
+out += sec99
 s = open(f"{R}/DESIGN.md").read()
 i = s.find("\n## 9. As built")
 if i >= 0:
